@@ -285,7 +285,8 @@ PROPS = {
     },
     "C02": {
         "level": "proof",
-        "lean_modules": ["CrabProofs.Props.C02", "CrabProofs.Props.C02Rgn"],
+        "lean_modules": ["CrabProofs.Props.C02", "CrabProofs.Props.C02Rgn", "CrabProofs.Props.C02FwdBwd", "CrabProofs.Props.C02FwdBwdEx",
+                         "CrabProofs.Props.C02FwdBwdC11"],
         "components": prog_components("[C02]", 500, 6000) + prog_components("[C02]", 250, 3000, ids=(13, 16, 17, 15)) + rprog_components("[C02]"),
         "rule": PROG_RULE,
         "assumptions": ["concrete semantics of DESIGN.md 2.3; executions that hit an operation crab gives no meaning to are not counted", "the inter-procedural checker is covered by C09's harness"],
@@ -293,7 +294,7 @@ PROPS = {
     },
     "C11": {
         "level": "proof",
-        "lean_modules": ["CrabProofs.Props.C11"],
+        "lean_modules": ["CrabProofs.Props.C11", "CrabProofs.Props.C11Inst", "CrabProofs.Props.C11InstEx"],
         "components": [{"harness": f"h_bwd_{d}", "source": "h_bwd", "defines": [f"-DVDOM={d}"],
                         "quick": 1200, "thorough": 12000, "shards": 2, "corpus": "h_bwd",
                         "nontrivial": lambda l: l.startswith("(bwd.op") or (len(l.split("(pre", 1)) == 2 and "(f 0" in l.split("(pre", 1)[1] and ("(cs (le" in l.split("(pre", 1)[1] or "(cs (eq" in l.split("(pre", 1)[1])),
